@@ -101,3 +101,11 @@ func init() {
 		return p.fromWord256(r)
 	}
 }
+
+func init() {
+	intrinsics[vsPkg+".Mul64"] = func(p *Path, fn *ssa.Function, a []Value) Value {
+		x, y := p.tt.ZExt(a[0].(*Term), 128), p.tt.ZExt(a[1].(*Term), 128)
+		m := p.tt.BVMul(x, y)
+		return TupleV{p.tt.Extract(m, 127, 64), p.tt.Extract(m, 63, 0)}
+	}
+}
